@@ -101,7 +101,7 @@ def build_cases(ctx: Ctx):
     cases.append({'kind': 'list', 'radix': 2, 'n': 2, 'level': 1, 'model': None,
                   'items': [{'kind': 'state', 'n': 2, 'state': {'idx': 1, 'ph': 0}}, {'kind': 'state', 'n': 2, 'state': {'idx': 2, 'ph': 0}}]})
     if not ctx.quick:
-        for _ in range(110):
+        for _ in range(70):
             n = rng.choice([1, 2, 2, 3])
             radix = rng.choice([2, 2, 2, 3]) if n <= 2 else 2
             level = rng.choice([1, 2, 3, 4])
@@ -119,7 +119,7 @@ def build_cases(ctx: Ctx):
         c['sched'] = rng.randrange(1 << 20)
         c['cseed'] = rng.randrange(1 << 16)
         c['trace'] = False
-        c['timeout'] = 240 if c['level'] == 1 else 420 if ctx.quick else 900
+        c['timeout'] = 240 if c['level'] == 1 else 420 if ctx.quick else 600
     return cases
 
 
